@@ -144,6 +144,8 @@ def typed(v):
     """value with the concrete type of every part: what f returns is returned as is, not an equal value of another type"""
     if isinstance(v, (list, tuple)):
         return (type(v).__name__, tuple(typed(x) for x in v))
+    if isinstance(v, dict):
+        return (type(v).__name__, tuple(sorted((kk_, typed(vv_)) for kk_, vv_ in v.items())))
     return (type(v).__name__, repr(v))
 
 
@@ -298,10 +300,10 @@ def run_cache(case, ctx):
     model_calls = 0
     for ci, idx in enumerate(case['seq']):
         call = case['pool'][idx]
-        a, k = [codec.dec(v) if isinstance(v, dict) else v for v in call['a']], {n_: (codec.dec(v) if isinstance(v, dict) else v) for n_, v in call['k'].items()}
+        a, k = [codec.dec(v) if isinstance(v, (dict, list)) else v for v in call['a']], {n_: (codec.dec(v) if isinstance(v, (dict, list)) else v) for n_, v in call['k'].items()}
         if ci % 2 and len(k) > 1:
             k = dict(reversed(list(k.items())))       # the same combination with its keywords written in another order
-        tl = lambda v: tuple(tl(x) for x in v) if isinstance(v, (list, tuple)) else v          # what a key that cannot tell a list from a tuple sees
+        tl = lambda v: tuple(tl(x) for x in v) if isinstance(v, (list, tuple)) else (('dict',) + tuple(sorted((kk_, tl(vv_)) for kk_, vv_ in v.items()))) if isinstance(v, dict) else v          # what a key that cannot tell a list from a tuple sees
         key = (typed(a), tuple(sorted((n_, typed(v)) for n_, v in k.items())))                  # 'as passed': 1, True and 1.0, or [1, 2] and (1, 2), are different arguments
         loose = (tl(a), frozenset((n_, tl(v)) for n_, v in k.items()))
         n0 = len(rec.log)
@@ -433,6 +435,8 @@ def gen_cache_case(rng):
     vals = ['x', 'y', 2, 3, None, 'z', 5, ('t', 1), 7.5, -1, -2, 2 ** 61 - 1, 0, -1, -2]   # hash(-1) == hash(-2), hash(2**61-1) == hash(0): distinct arguments, equal hashes
     if rng.random() < 0.25:
         vals = [1, True, 1.0, [1, 2], {'$t': [1, 2]}, 0, False, 'x', [], {'$t': []}]               # equal (or equal once lists are read as tuples) but not the same argument
+    elif rng.random() < 0.2:
+        vals = [{'$t': [1, [2, 3]]}, {'$t': ['x', {'k': 1}]}, {'$t': [1, [2, 4]]}, [1, {'$t': [5, 6]}], 'x', 3, {'$t': ['nm', [7, 8]]}, [[1], [2]]]    # unhashable parts one level down: inside a tuple, inside a list
     for c in calls:
         for _ in range(2):
             m = {}
